@@ -87,6 +87,11 @@ Theorem C03_orderedb_sound : forall s, orderedb s = true -> ordered s.
 Proof. exact orderedb_sound. Qed.
 Print Assumptions C03_orderedb_sound.
 
+(* ... and it rejects nothing it should accept: reading the file back off its own layout returns the file *)
+Theorem C03_orderedb_decides : forall s, orderedb s = true <-> ordered s.
+Proof. exact orderedb_iff. Qed.
+Print Assumptions C03_orderedb_decides.
+
 (* non-vacuity: a 4-slot file of a writer that pads (3 bytes in front of the first block, 2 in front of the second,
    one more byte behind the data): remove the first block, add a new one — sound, and the second block's bytes moved
    up by exactly the removed size, padding and all *)
